@@ -1281,6 +1281,9 @@ class Interp(object):
         if c.kind == 'seq':
             from .seqs import seq_slice
             return seq_slice(self, c, lo, hi)
+        if c.kind == 'line':
+            from .linemodel import line_slice
+            return line_slice(self, c, lo, hi)
         raise Undecided('slice of %s' % c.kind)
 
     # ---------------------------------------------------------------- containers: setitem / delitem
@@ -1530,6 +1533,10 @@ class Interp(object):
             m3 = getattr(accmodel, 'm_%s_%s' % (k, name), None)
             if m3 is not None:
                 return m3(self, recv, argv, kwv)
+            from . import linemodel
+            m4 = getattr(linemodel, 'm_%s_%s' % (k, name), None)
+            if m4 is not None:
+                return m4(self, recv, argv, kwv)
             raise Undecided('method %s.%s at %s' % (k, name, self.ctx.where))
         return m(recv, argv, kwv)
 
